@@ -5,6 +5,7 @@ package gpurequesthandler
 
 import (
 	"fmt"
+	"math"
 	"strconv"
 
 	v1 "k8s.io/api/core/v1"
@@ -12,6 +13,9 @@ import (
 
 	"github.com/NVIDIA/KAI-scheduler/pkg/common/constants"
 )
+
+// minGpuFraction is the scheduler's GPU accounting resolution (resource_info.minGPUs)
+const minGpuFraction = 0.01
 
 func ValidateGpuRequests(pod *v1.Pod) error {
 	gpuFractionFromAnnotation, hasGpuFractionAnnotation := pod.Annotations[constants.GpuFraction]
@@ -65,8 +69,10 @@ func validateMemoryAnnotation(hasGpuMemoryAnnotation bool, gpuMemoryFromAnnotati
 	if !hasGpuMemoryAnnotation {
 		return nil
 	}
-	gpuMemory, err := strconv.ParseUint(gpuMemoryFromAnnotation, 10, 64)
-	if err != nil || gpuMemory == 0 {
+	// ParseInt + int32 bound: every consumer (scheduler, binder, podgroup-controller) reads this value as int64
+	// and multiplies it by the device count
+	gpuMemory, err := strconv.ParseInt(gpuMemoryFromAnnotation, 10, 64)
+	if err != nil || gpuMemory <= 0 || gpuMemory > math.MaxInt32 {
 		return fmt.Errorf("gpu-memory annotation value must be a positive integer greater than 0")
 	}
 	return nil
@@ -77,7 +83,9 @@ func validateGpuFractionAnnotation(hasGpuFractionAnnotation bool, gpuFractionFro
 		return nil
 	}
 	gpuFraction, gpuFractionErr := strconv.ParseFloat(gpuFractionFromAnnotation, 64)
-	if gpuFractionErr != nil || gpuFraction <= 0 || gpuFraction >= 1 {
+	// the podgroup-controller reads the same string as a resource.Quantity; the scheduler accounts GPUs in 1/100
+	_, quantityErr := resource.ParseQuantity(gpuFractionFromAnnotation)
+	if gpuFractionErr != nil || quantityErr != nil || !(gpuFraction >= minGpuFraction && gpuFraction < 1) {
 		return fmt.Errorf(
 			"gpu-fraction annotation value must be a positive number smaller than 1.0")
 	}
@@ -88,8 +96,8 @@ func validateMultiFractionRequest(hasGpuFractionsCount bool, gpuFractionsCountFr
 	if !hasGpuFractionsCount {
 		return nil
 	}
-	fractionsCount, err := strconv.ParseUint(gpuFractionsCountFromAnnotation, 10, 64)
-	if err != nil || fractionsCount == 0 {
+	fractionsCount, err := strconv.ParseInt(gpuFractionsCountFromAnnotation, 10, 64)
+	if err != nil || fractionsCount <= 0 || fractionsCount > math.MaxInt32 {
 		return fmt.Errorf("fraction count annotation value must be a positive integer greater than 0")
 	}
 	return nil
